@@ -405,10 +405,10 @@ def run_c29(ctx, replay):
     else:
         mc = c29_model(ctx, thorough)
         scens = c29_scenarios(random.Random(ctx.seed), thorough)
-        args = ["-procs", "1"] + (["-maxpre", "3", "-budget1", "600", "-budget", "600", "-random", "60"] if thorough else
+        args = ["-procs", "1"] + (["-maxpre", "3", "-budget1", "400", "-budget", "300", "-random", "40"] if thorough else
                                   ["-maxpre", "2", "-budget1", "50", "-budget", "10", "-random", "8"])
         summary, rep, viol = explore_and_validate(ctx, "C29", binary, scens, "Trace_LogPipe", TRACE_CFG, args,
-                                                  chunks=6 if thorough else 4)
+                                                  chunks=8 if thorough else 4)
     new, known = vlib.classify(ctx.prop, proposed_last(ctx.prop, viol))
     cov = {
         "states": mc.distinct if mc else 1, "transitions": mc.generated if mc else 1, "exhaustive": bool(mc),
@@ -529,15 +529,16 @@ def run_c28(ctx, replay):
     else:
         mc = c28_model(ctx, thorough)
         scens = c28_scenarios(random.Random(ctx.seed), thorough)
-        args = ["-procs", "2"] + (["-maxpre", "2", "-budget1", "700", "-budget", "300", "-random", "40"] if thorough else
+        args = ["-procs", "2"] + (["-maxpre", "2", "-budget1", "250", "-budget", "100", "-random", "25"] if thorough else
                                   ["-maxpre", "1", "-budget1", "60", "-random", "8"])
         summary, rep, viol = explore_and_validate(ctx, "C28", binary, scens, "Trace_RPCClient", RPC_CFG, args,
-                                                  chunks=6 if thorough else 4)
+                                                  chunks=8 if thorough else 4)
     new, known = vlib.classify(ctx.prop, proposed_last(ctx.prop, viol))
     cov = {
         "states": mc.distinct if mc else 1, "transitions": mc.generated if mc else 1, "exhaustive": bool(mc),
         "model_constants": "listener + 1-2 user threads (Stop / Close / feed, <= 2 calls each), 1-2 subscriptions "
-                           "(stream, monitor, query), <= 3 records on the wire: %d scenarios, every interleaving" % (9 if thorough else 7),
+                           "(stream, monitor, query), <= 3 records on the wire: %d scenarios, every interleaving; the same on the fixed-code "
+                           "variant (a mutex per handler) with no waiver" % (9 if thorough else 7),
         "traces_validated_against_impl": rep.traces, "trace_lines": rep.lines, "divergences": len(rep.diverged),
         "evaluations": summary["schedules"], "distinct_nontrivial": rep.traces,
         "scenarios": summary["scenarios"], "scenarios_with_complete_dfs": summary["dfs_complete"],
@@ -599,10 +600,10 @@ def run_c34(ctx, replay):
     else:
         mc = c34_model(ctx, thorough)
         scens = c34_scenarios(random.Random(ctx.seed), thorough)
-        args = ["-procs", "4"] + (["-maxpre", "2", "-budget1", "800", "-budget", "400", "-random", "60"] if thorough else
+        args = ["-procs", "4"] + (["-maxpre", "2", "-budget1", "400", "-budget", "200", "-random", "40"] if thorough else
                                   ["-maxpre", "2", "-budget1", "80", "-budget", "15", "-random", "10"])
         summary, rep, viol = explore_and_validate(ctx, "C34", binary, scens, "Trace_Lifecycle", LC_CFG, args,
-                                                  chunks=6 if thorough else 4)
+                                                  chunks=8 if thorough else 4)
         tp = os.path.join(ctx.scratch, "trace.ndjson")
     ml_panics = 0
     with open(tp) as f:
